@@ -508,6 +508,32 @@ func c12Structure(c *ctx, cs c12Case) {
 		expectAccept("nested-distinct", func() { ast.NewListNode(ast.NewListNode(ast.NewIntNode(1, 1), "...[0]"), "...[1]") })
 		expectRefuse("in-int", func() { ast.NewIntNode(1, 1, "...") })
 		expectRefuse("in-ascii", func() { ast.NewASCIINodeVariable("...", 0, -1) })
+		// the same placements reached by renaming a variable through a fill (a string fill value is a rename): what the
+		// constructor refuses when written directly, a fill must not produce either
+		for _, ell := range []string{"...", "...[0]", "...[7]"} {
+			ell := ell
+			expectRefuse("fill-renames-first-list-variable-to-"+ell, func() {
+				ast.NewListNode("v", ast.NewIntNode(1, 1)).FillVariables(map[string]interface{}{"v": ell})
+			})
+			expectRefuse("fill-renames-first-list-variable-to-"+ell+"-with-a-count", func() {
+				ast.NewListNode("v", ast.NewIntNode(1, 1), "...").FillVariables(map[string]interface{}{"v": ell, "...": 0})
+			})
+			expectRefuse("fill-renames-first-variable-of-a-nested-list-to-"+ell, func() {
+				ast.NewListNode(ast.NewUintNode(1, 5), ast.NewListNode("v", "w")).FillVariables(map[string]interface{}{"v": ell})
+			})
+			expectRefuse("message-fill-renames-first-list-variable-to-"+ell, func() {
+				ast.NewDataMessage("", 1, 1, 0, "H->E", ast.NewListNode("v", ast.NewIntNode(1, 1))).FillVariables(map[string]interface{}{"v": ell})
+			})
+			expectRefuse("fill-renames-a-list-variable-to-a-second-"+ell, func() {
+				ast.NewListNode(ast.NewIntNode(1, 1), "...[1]", "v").FillVariables(map[string]interface{}{"v": ell})
+			})
+			expectRefuse("fill-renames-a-slot-to-"+ell, func() {
+				ast.NewUintNode(2, 1, "v").FillVariables(map[string]interface{}{"v": ell})
+			})
+			expectRefuse("fill-renames-a-boolean-slot-to-"+ell, func() {
+				ast.NewBooleanNode(true, "v").FillVariables(map[string]interface{}{"v": ell})
+			})
+		}
 	case "asciibounds":
 		expectRefuse("min<0", func() { ast.NewASCIINodeVariable("v", -1, 5) })
 		expectRefuse("max<-1", func() { ast.NewASCIINodeVariable("v", 0, -2) })
@@ -646,6 +672,83 @@ func c12Eval(c *ctx, cs c12Case) {
 		c12Structure(c, cs)
 	case "msg":
 		c12Msg(c, cs)
+	case "fillhist":
+		c12FillHist(c, cs)
+	}
+}
+
+// c12FillHist: several fills of ONE node object, some of them refused, each compared with the same fill of a fresh
+// twin: what a call stores depends on the values of that call only - not on values handed to an earlier call, kept or
+// refused.
+func c12FillHist(c *ctx, cs c12Case) {
+	r := rng.New(uint64(cs.Ints[0]))
+	kinds := []ref.Kind{ref.I1, ref.I2, ref.I4, ref.I8, ref.U1, ref.U2, ref.U4, ref.U8, ref.F4, ref.F8, ref.B, ref.BOOLEAN}
+	k := kinds[r.Intn(len(kinds))]
+	g := gen.New(r, gen.Profile{})
+	names := []string{"a", "b", "cc"}
+	tpl := &ref.Item{Kind: k, Slots: make([]ref.Slot, 5)}
+	for i := range tpl.Slots {
+		tpl.Slots[i] = g.Value(k)
+	}
+	for j, p := range r.Perm(5)[:3] {
+		tpl.Slots[p] = ref.Slot{Var: names[j]}
+	}
+	bad := func() interface{} {
+		switch {
+		case k == ref.I8:
+			return uint64(1) << 63
+		case k.IsInt():
+			return int64(1) << uint(8*k.Width()-1)
+		case k.IsUint():
+			return -1
+		case k == ref.F4:
+			return 1e39
+		case k == ref.F8:
+			return math.Inf(1)
+		case k == ref.B:
+			return 256
+		}
+		return 5
+	}
+	var node ast.ItemNode
+	if o := real.Try(func() { node = real.Build(tpl) }); o.Panicked {
+		return
+	}
+	c.Note(rng.HashStr(fmt.Sprint("fillhist", cs.Ints)), true)
+	c.Class("num/fill-history-on-one-node")
+	hist := ""
+	for call := 0; call < 4; call++ {
+		m1, m2 := map[string]interface{}{}, map[string]interface{}{}
+		desc := "{"
+		for _, nm := range names {
+			if !r.Chance(1, 2) {
+				continue
+			}
+			var raw interface{} = goValue(r, k, g.Value(k))
+			if r.Chance(1, 5) {
+				raw = bad()
+			}
+			m1[nm], m2[nm] = raw, raw
+			desc += fmt.Sprintf("%s:%v ", nm, raw)
+		}
+		desc += "}"
+		var got, want ast.ItemNode
+		og := real.Try(func() { got = node.FillVariables(m1) })
+		ow := real.Try(func() { want = real.Build(tpl).FillVariables(m2) })
+		if og.Panicked != ow.Panicked {
+			c.Violation("C12/fillhist/refusal-depends-on-earlier-calls", fmt.Sprintf("%s filled with %s after %q on the same node: %s; on a fresh node: %s", clipS(ref.Print(tpl)), desc, hist, og, ow), cs)
+			return
+		}
+		if !og.Panicked {
+			if d := real.SnapItem(got).Diff(real.SnapItem(want)); d != "" {
+				c.Violation("C12/fillhist/stored-values-depend-on-earlier-calls", fmt.Sprintf("%s filled with %s after %q on the same node differs from the same fill of a fresh node: %s", clipS(ref.Print(tpl)), desc, hist, d), cs)
+				return
+			}
+			hist += desc + " "
+		} else {
+			hist += desc + "(refused) "
+			c.Class("num/fill-history-on-one-node/after-a-refused-fill")
+		}
 	}
 }
 
@@ -820,6 +923,9 @@ func runC12(c *ctx) {
 			prevGot, prevWant, prevTree = got, want, t
 		}
 	}
+	for i := 0; i < c.pick(6000, 60000); i++ {
+		c12Eval(c, c12Case{Op: "fillhist", Ints: []int{int(r.U64() >> 2)}})
+	}
 	// messages
 	names := []string{"", "name", "a b", "a\tb", "a\nb", " a", "a ", "a\rb", "a\vb", "a\fb", "漢字", "a<b>.c", "//"}
 	for _, s := range []int{-1, 0, 1, 127, 128, 255, 1 << 31, -1 << 31} {
@@ -948,7 +1054,7 @@ func runC12(c *ctx) {
 			}
 		}
 	}
-	c.Required = []string{"msg/far-out-of-range-parameter", "num/width-argument", "num/out-of-domain-among-neighbours", "num/in-domain", "num/out-of-domain", "num/int-into-float", "float/non-finite", "float/overflow", "float/in-range", "binstr/valid", "binstr/invalid", "ascii/non-ascii-unicode", "ascii/invalid-utf8", "varname/valid", "varname/invalid", "varname/ellipsis", "msg/NewDataMessage", "msg/NewHSMSDataMessage", "msg/SetSessionID", "msg/fill-after-stamp", "structure/small-trees-encoded-side-by-side"}
+	c.Required = []string{"num/fill-history-on-one-node", "num/fill-history-on-one-node/after-a-refused-fill", "msg/far-out-of-range-parameter", "num/width-argument", "num/out-of-domain-among-neighbours", "num/in-domain", "num/out-of-domain", "num/int-into-float", "float/non-finite", "float/overflow", "float/in-range", "binstr/valid", "binstr/invalid", "ascii/non-ascii-unicode", "ascii/invalid-utf8", "varname/valid", "varname/invalid", "varname/ellipsis", "msg/NewDataMessage", "msg/NewHSMSDataMessage", "msg/SetSessionID", "msg/fill-after-stamp", "structure/small-trees-encoded-side-by-side"}
 }
 
 func replayC12(c *ctx, raw json.RawMessage) {
